@@ -8,3 +8,4 @@ open EpgVerif.Props.C14
 #print axioms E_contracts_deviation
 #print axioms spoiler_contracts
 #print axioms normSq_eq_code_norm
+#print axioms energy_shiftF
